@@ -190,6 +190,42 @@ func parenC03(c *Ctx, tt *tokenTable) {
 		c.Unk("C03.regexrhs", "(*Parser).ParseExpr: insertion point", pe.Pos(), "no BinaryExpr is built in the loop")
 		return
 	}
+	// helper form: ParseExpr hands the operator to one Parser method that
+	// chooses between parseRegex and parseUnaryExpr.
+	direct := false
+	var helper *ssa.Function
+	nHelpers := 0
+	for _, b := range pe.Blocks {
+		for _, in := range b.Instrs {
+			call, ok := in.(*ssa.Call)
+			if !ok {
+				continue
+			}
+			callee := call.Call.StaticCallee()
+			if callee == parseRegex {
+				direct = true
+			}
+			if callee == nil || callee == pe || callee == parseRegex || callee == pu || callee.Pkg == nil || callee.Pkg.Pkg != p.Types {
+				continue
+			}
+			for _, hb := range callee.Blocks {
+				for _, hin := range hb.Instrs {
+					if hc, ok := hin.(*ssa.Call); ok && hc.Call.StaticCallee() == parseRegex && helper != callee {
+						helper = callee
+						nHelpers++
+					}
+				}
+			}
+		}
+	}
+	if !direct {
+		if nHelpers != 1 {
+			c.Unk("C03.regexrhs", "(*Parser).ParseExpr: operand under =~ / !~", pe.Pos(), "parseRegex is not called from ParseExpr or from exactly one helper it calls")
+			return
+		}
+		regexRHSHelper(c, pe, helper, pu, parseRegex, isRe, insertBlk)
+		return
+	}
 	r1 := mk(true, false)
 	c.Check(calls(r1, parseRegex, false) && !calls(r1, pu, true), "C03.regexrhs", "(*Parser).ParseExpr: operand under =~ / !~", pe.Pos(), "operand must come from parseRegex only")
 	r2 := mk(false, false)
@@ -370,10 +406,27 @@ func assocC03(c *Ctx) {
 		ok := false
 		if pi, isIf := pred.Instrs[len(pred.Instrs)-1].(*ssa.If); isIf {
 			// allowed: the comma-ok of node.RHS.(*BinaryExpr), on its false edge
-			if ex, isEx := pi.Cond.(*ssa.Extract); isEx && ex.Index == 1 {
-				if ta, isTA := ex.Tuple.(*ssa.TypeAssert); isTA && ta.CommaOk && types.Identical(ta.AssertedType, types.NewPointer(binT)) && pred.Succs[1] == insert {
-					ok = true
+			isOkOfBinary := func(v ssa.Value) bool {
+				ex, isEx := v.(*ssa.Extract)
+				if !isEx || ex.Index != 1 {
+					return false
 				}
+				ta, isTA := ex.Tuple.(*ssa.TypeAssert)
+				return isTA && ta.CommaOk && types.Identical(ta.AssertedType, types.NewPointer(binT))
+			}
+			cond := pi.Cond
+			okCond := isOkOfBinary(cond)
+			if phi, isPhi := cond.(*ssa.Phi); isPhi {
+				// the ok result carried in a loop variable (child, isBinary = x.RHS.(*BinaryExpr))
+				okCond = len(phi.Edges) > 0
+				for _, e := range phi.Edges {
+					if !isOkOfBinary(e) {
+						okCond = false
+					}
+				}
+			}
+			if okCond && pred.Succs[1] == insert {
+				ok = true
 			}
 		}
 		if ok {
@@ -600,4 +653,80 @@ func binPrintC03(c *Ctx, rule string) {
 		}
 	}
 	c.OK(rule, "operand stores outside ParseExpr", 0, fmt.Sprintf("%d stores into BinaryExpr operands in other parser methods; none stores a *BinaryExpr", nSites))
+}
+
+// regexRHSHelper decides C03.regexrhs when ParseExpr delegates the operand
+// choice to one helper method h: the three obligations are decided on h, and
+// the missing-regex obligation additionally feeds h's results under a nil
+// regex back into ParseExpr.
+func regexRHSHelper(c *Ctx, pe, h, pu, parseRegex, isRe *ssa.Function, insertBlk *ssa.BasicBlock) {
+	p := c.P
+	calls := func(r *sccpRun, fn *ssa.Function) bool {
+		for _, b := range h.Blocks {
+			if !r.execB[b.Index] {
+				continue
+			}
+			for _, in := range b.Instrs {
+				if call, ok := in.(*ssa.Call); ok && call.Call.StaticCallee() == fn {
+					return true
+				}
+			}
+		}
+		return false
+	}
+	mk := func(isRegex, regexNil bool) *sccp {
+		s := p.newSCCP()
+		s.hook = func(call *ssa.Call, args []cval) ([]cval, bool) {
+			switch call.Call.StaticCallee() {
+			case isRe:
+				return []cval{cConst(constant.MakeBool(isRegex))}, true
+			case parseRegex:
+				if regexNil {
+					return []cval{cNil(), cNil()}, true
+				}
+			}
+			return nil, false
+		}
+		return s
+	}
+	name := "(*Parser).ParseExpr via " + h.Name()
+	r1 := mk(true, false).run(h, nil, 0)
+	c.Check(calls(r1, parseRegex) && !calls(r1, pu), "C03.regexrhs", "(*Parser).ParseExpr: operand under =~ / !~", h.Pos(), name+": operand must come from parseRegex only")
+	r2 := mk(false, false).run(h, nil, 0)
+	c.Check(!calls(r2, parseRegex) && calls(r2, pu), "C03.regexrhs", "(*Parser).ParseExpr: operand under other operators", h.Pos(), name+": operand must come from parseUnaryExpr only")
+	rets := mk(true, true).Eval(h, nil)
+	ok := len(rets) > 0
+	for _, rp := range rets {
+		if len(rp.Results) != 2 {
+			ok = false
+			break
+		}
+		res := []cval{rp.Results[0], rp.Results[1]}
+		if !res[1].isConst() {
+			// an error value of unknown identity: non-nil only if the helper
+			// built it; treat an opaque one as possibly nil
+			if _, isCall := rp.Instr.Results[1].(*ssa.Call); isCall {
+				res[1] = cSym("err")
+			} else if mi, isMI := rp.Instr.Results[1].(*ssa.MakeInterface); isMI && !isNilConst(mi.X) {
+				res[1] = cSym("err")
+			}
+		}
+		s := mk(true, true)
+		inner := s.hook
+		s.hook = func(call *ssa.Call, args []cval) ([]cval, bool) {
+			if call.Call.StaticCallee() == h {
+				return res, true
+			}
+			return inner(call, args)
+		}
+		if r := s.run(pe, nil, 0); r.execB[insertBlk.Index] {
+			ok = false
+		}
+	}
+	c.Check(ok, "C03.regexrhs", "(*Parser).ParseExpr: missing regex", pe.Pos(), name+": a nil regex from parseRegex must be rejected before the insertion point")
+}
+
+func isNilConst(v ssa.Value) bool {
+	k, ok := v.(*ssa.Const)
+	return ok && k.Value == nil
 }
